@@ -290,8 +290,8 @@ def c06_body(t, k, g=G_PIPE, n_calls=2, full=False):
                 for _p, node in O.walk(anno):
                     if O.is_anon_td(node):
                         dicts = _nested_dicts([v for a, r in calls for v in (a, r)])
-                        good = [d for d in dicts if len(d) > 0 and all(isinstance(x, str) for x in d) and O.conforms(d, node)]
-                        bad = [d for d in dicts if (len(d) == 0 or not all(isinstance(x, str) for x in d)) and O.conforms(d, node)]
+                        good = [d for d in dicts if len(d) > 0 and all(issubclass(type(x), str) for x in d) and O.conforms(d, node)]
+                        bad = [d for d in dicts if (len(d) == 0 or not all(issubclass(type(x), str) for x in d)) and O.conforms(d, node)]
                         # an empty / non-str-keyed dict that happens to fit an all-optional TypedDict is only a defect when
                         # nothing else at the annotation accounts for it (e.g. Union[List[Dict[Any, Any]], List[TD]] from two yields)
                         plain_dict = any(O.is_generic(x) and not O.is_union(x) and O.gname(x) in ("Dict", "DefaultDict") for _q, x in O.walk(anno))
